@@ -39,10 +39,19 @@ class SimAbort(BaseException):
     """A BaseException that is not an Exception (like cancellation / KeyboardInterrupt)."""
 
 
+class _Deferred(Exception):
+    """Carries an exception that a generator frame cannot raise itself (StopIteration): roundtrip() raises it."""
+
+    def __init__(self, exc: BaseException):
+        super().__init__()
+        self.exc = exc
+
+
 EXC_FACTORIES: Dict[str, Callable[[], BaseException]] = {
     'timeout': lambda: SimTimeout('simulated timeout'),
     'conn': lambda: SimConnError('simulated connection error'),
     'cancelled': lambda: asyncio.CancelledError('simulated cancellation raised by the transport'),
+    'stopiter': lambda: _Deferred(StopIteration('the canned replies ran out')),
     'reset': lambda: SimConnReset('simulated connection reset'),
     'other': lambda: SimOther('simulated unlisted failure'),
     'abort': lambda: SimAbort('simulated abort'),
@@ -180,10 +189,11 @@ class SimNet:
 
     def _raise(self, kind: str, where: str, key: Any = None, attempt: Optional[int] = None) -> BaseException:
         exc = EXC_FACTORIES[kind]()
-        self.raised.append(exc)
+        real = exc.exc if isinstance(exc, _Deferred) else exc
+        self.raised.append(real)
         if self.keyed_scripts:
-            self.raised_keyed.setdefault(key, []).append(exc)
-        self.world.rec(self.name, 'wire.raise', exc=type(exc).__name__, where=where, oid=self.world.ordinal(exc),
+            self.raised_keyed.setdefault(key, []).append(real)
+        self.world.rec(self.name, 'wire.raise', exc=type(real).__name__, where=where, oid=self.world.ordinal(real),
                        attempt=self.attempt - 1 if attempt is None else attempt, key=key)
         return exc
 
@@ -262,6 +272,8 @@ class SimNet:
                         eff = gen.send(reply)
         except StopIteration as stop:
             return stop.value
+        except _Deferred as d:
+            raise d.exc from None
 
     async def aroundtrip(self, text: str, is_notification: bool) -> Optional[str]:
         gen = self._flow(text, is_notification)
